@@ -81,7 +81,7 @@ func (C15) Meta() core.Meta {
 		Assumptions: []string{"kernel, file system and process scheduling are real and not controlled; nothing in the oracle depends on timing (pipes are pre-filled or closed before start)", "passphrase flows (age -p, age -d of a passphrase file) run on a pseudo-terminal the simulator types into: right / wrong / empty passphrase, terminal hang-up, confirmation mismatch", "runs as root: permission-denied destinations are not generated", "a death by signal (SIGXFSZ, SIGPIPE) counts as a non-zero status", "the key age-keygen generates comes from the child process's real CSPRNG: its value is checked for consistency, never logged or compared between runs"},
 		Real:        []string{"cmd/age and cmd/age-keygen binaries built from the working tree", "Linux kernel: files, pipes, RLIMIT_FSIZE, /dev/full"},
 		Stub:        []string{"argv, environment, input files, identity/recipient files, file descriptors and limits (the plan)"},
-		FaultKinds:  []string{"fault.fsize", "fault.nodir", "fault.isdir", "fault.devfull", "fault.closedpipe", "fault.damage_header", "fault.damage_payload", "fault.damage_trunc", "fault.damage_trunc_chunk", "fault.no_matching_identity", "fault.competing_creator", "fault.passphrase_wrong", "fault.passphrase_empty", "fault.passphrase_hangup", "fault.passphrase_mismatch", "fault.passphrase_notmine"},
+		FaultKinds:  []string{"fault.fsize", "fault.nodir", "fault.isdir", "fault.devfull", "fault.closedpipe", "fault.damage_header", "fault.damage_payload", "fault.damage_trunc", "fault.damage_trunc_chunk", "fault.no_matching_identity", "fault.competing_creator", "fault.passphrase_wrong", "fault.passphrase_empty", "fault.passphrase_hangup", "fault.passphrase_mismatch", "fault.passphrase_notmine", "fault.fifo_reader_leaves"},
 		Probes:      []string{"probe.exit0_complete", "probe.exit_nonzero", "probe.killed_by_signal", "probe.same_file_refused", "probe.pre_existing_output", "probe.keygen_mode_checked", "probe.empty_plaintext", "probe.multi_chunk", "probe.fsize_limit_below_output", "probe.fsize_limit_at_or_above_output", "probe.header_refusal_output_untouched", "probe.partial_output_is_prefix", "probe.stdin_input", "probe.several_identity_files", "probe.dash_names", "probe.pre_existing_symlink", "probe.race_competitor_refused", "probe.race_competitor_created", "probe.passphrase_on_pseudo_terminal", "probe.output_not_a_regular_file"},
 	}
 }
@@ -179,8 +179,17 @@ func (C15) Generate(r *core.RNG, tier string, idx uint64) interface{} {
 	}
 	if p.Fault.Kind == "" && p.SameAs == "" && !p.PreExist && (p.Op == "encrypt" || p.Op == "decrypt") && r.Chance(1, 6) {
 		// -o names something that is not a regular file: a FIFO somebody reads, /dev/stdout (a pipe), /dev/null
-		p.OutVia = []string{"fifo", "fifo", "devstdout", "devnull"}[r.Intn(4)]
+		p.OutVia = []string{"fifo", "fifo", "devstdout", "devnull", "fifo-early"}[r.Intn(5)]
 		p.Dash = false
+		if p.OutVia == "fifo-early" {
+			// the reader takes 1000 bytes and leaves, the result is far larger than a pipe holds: it cannot be
+			// fully written, which must end in a non-zero status (not in status 0, and not in no status at all)
+			p.PLen = 300000
+			p.Damage = ""
+			if p.IdKey < 0 {
+				p.IdKey = 0
+			}
+		}
 	}
 	if p.Fault.Kind == "" && p.SameAs == "" && r.Chance(1, 10) {
 		// passphrase flows: the prompts are answered on a pseudo-terminal
@@ -202,7 +211,7 @@ func (C15) Generate(r *core.RNG, tier string, idx uint64) interface{} {
 	if p.Op == "keygen-race" {
 		p.Fault, p.SameAs, p.PreExist, p.PreLink = OutFault{}, "", false, false
 	}
-	if idx%12 == 5 && (p.Fault.Kind == "" || p.Fault.Kind == "fsize") && p.SameAs == "" && p.Op != "keygen-race" && p.Op != "decrypt-p" && p.Op != "encrypt-p" && p.Op != "decrypt-sshenc" && p.OutVia != "fifo" && p.OutVia != "devstdout" && p.OutVia != "devnull" {
+	if idx%12 == 5 && (p.Fault.Kind == "" || p.Fault.Kind == "fsize") && p.SameAs == "" && p.Op != "keygen-race" && p.Op != "decrypt-p" && p.Op != "encrypt-p" && p.Op != "decrypt-sshenc" && p.OutVia != "fifo" && p.OutVia != "fifo-early" && p.OutVia != "devstdout" && p.OutVia != "devnull" {
 		// exhaustive: every byte offset at which a size-limited output can fail
 		p.Sweep = true
 		p.Fault = OutFault{Kind: "fsize"}
@@ -313,6 +322,9 @@ type procResult struct {
 	timeout bool
 }
 
+// runProcTimeout is how long a process may run (a worker process executes one case at a time).
+var runProcTimeout = 60 * time.Second
+
 func runProc(dir string, umask int, stdin []byte, stdout *os.File, closeRead *os.File, fsize int, argv ...string) procResult {
 	var res procResult
 	args := argv
@@ -352,7 +364,7 @@ func runProc(dir string, umask int, stdin []byte, stdout *os.File, closeRead *os
 	go func() { done <- cmd.Wait() }()
 	select {
 	case <-done:
-	case <-time.After(60 * time.Second):
+	case <-time.After(runProcTimeout):
 		cmd.Process.Kill()
 		<-done
 		res.timeout = true
@@ -715,6 +727,37 @@ func (e C15) one(p *C15Plan, fault OutFault, c *core.Ctx, ageBin, kgBin string, 
 		fifoStop = func() { rd.SetReadDeadline(time.Now().Add(30 * time.Millisecond)); <-fifoDone }
 		argv = append(argv, "-o", outPath)
 		c.Stats.Inc("probe.output_not_a_regular_file")
+	case "fifo-early":
+		if err := syscall.Mkfifo(outPath, 0o600); err != nil {
+			return core.Fail("harness", "mkfifo: %v", err)
+		}
+		rfd, err := syscall.Open(outPath, syscall.O_RDONLY|syscall.O_NONBLOCK|syscall.O_CLOEXEC, 0) // (close-on-exec: the child must not inherit the read end)
+		if err != nil {
+			return core.Fail("harness", "open fifo: %v", err)
+		}
+		fifoDone = make(chan struct{})
+		stopEarly := make(chan struct{})
+		go func() {
+			defer close(fifoDone)
+			defer syscall.Close(rfd)
+			buf := make([]byte, 1000)
+			for len(fifoData) < 1000 {
+				n, _ := syscall.Read(rfd, buf[:1000-len(fifoData)])
+				if n > 0 {
+					fifoData = append(fifoData, buf[:n]...)
+					continue
+				}
+				select {
+				case <-stopEarly:
+					return
+				case <-time.After(time.Millisecond):
+				}
+			}
+		}()
+		fifoStop = func() { close(stopEarly); <-fifoDone }
+		argv = append(argv, "-o", outPath)
+		c.Stats.Inc("probe.output_not_a_regular_file")
+		c.Stats.Inc("fault.fifo_reader_leaves")
 	case "devstdout":
 		argv = append(argv, "-o", "/dev/stdout") // stdout is a pipe the harness reads
 		c.Stats.Inc("probe.output_not_a_regular_file")
@@ -768,9 +811,25 @@ func (e C15) one(p *C15Plan, fault OutFault, c *core.Ctx, ageBin, kgBin string, 
 		sameIno, _, _ = fileID(sameTarget)
 	}
 
+	if p.OutVia == "fifo-early" {
+		runProcTimeout = 15 * time.Second // a blocked writer is recognised sooner
+	}
 	res := runProc(dir, p.Umask, stdin, stdoutFile, closeRead, fsize, argv...)
+	runProcTimeout = 60 * time.Second
 	if fifoStop != nil {
 		fifoStop()
+	}
+	if p.OutVia == "fifo-early" && fault.Kind == "" {
+		c.Stats.Eval(fmt.Sprintf("%+v|fifo-early", *p), true)
+		c.Log.Add("%s -o FIFO whose reader leaves after %d bytes -> exit=%d timeout=%v", p.Op, len(fifoData), res.exit, res.timeout)
+		if res.timeout {
+			return core.Fail("C15.hang", "%s -o FIFO: the reader took %d bytes and left, the result (about %d bytes) cannot be fully written, and the process neither failed nor finished within 15 s", p.Op, len(fifoData), p.PLen)
+		}
+		if res.exit == 0 && p.PLen > 140000 {
+			return core.Fail("C15.exit0_incomplete", "%s -o FIFO: the reader took %d bytes and left, the result (about %d bytes) is far larger than a pipe holds, yet the exit status is 0", p.Op, len(fifoData), p.PLen)
+		}
+		c.Stats.Inc("probe.exit_nonzero")
+		return nil
 	}
 	if res.timeout {
 		return core.Fail("C15.hang", "process did not finish within 60 s: %v", argv[1:])
@@ -1008,7 +1067,7 @@ func (e C15) race(p *C15Plan, c *core.Ctx, kgBin string) *core.Verdict {
 	fd := -1
 	start := time.Now()
 	for fd < 0 && !exited {
-		f, err := syscall.Open(fifo, syscall.O_WRONLY|syscall.O_NONBLOCK, 0)
+		f, err := syscall.Open(fifo, syscall.O_WRONLY|syscall.O_NONBLOCK|syscall.O_CLOEXEC, 0)
 		switch {
 		case err == nil:
 			fd = f
